@@ -61,3 +61,12 @@ Example C03_nonvacuous :
                           (CAnd (CCmp Gt (TMap (MField 0) (TVar 1)) (TLit (VInt 2)))
                                 (CCmp NotContains (TMap (MField 3) (TVar 1)) (TMap (MField 0) (TVar 1)))).
 Proof. eexists. split; [vm_compute; reflexivity|]. split; reflexivity. Qed.
+
+(* a CONSTANT operand (and_(c, flag) with a Python bool) is negated like every other expression in condition position: the
+   complement of "the constant is truthy" (symbolic.py: Literal._evaluate__ reads the constant as a boolean and honours _invert_,
+   repaired by 1e19dac; the generators pass bool constants as operands of and_ / or_ / not_) *)
+Theorem C03_constant_operand : forall h dom v e,
+  sat h dom (SNot (STruth (TLit v))) e = negb (truthy v) /\
+  sat h dom (SNot (SAnd (STruth (TLit v)) (SNot (STruth (TLit v))))) e = true.
+Proof. intros. cbn [sat tval]. split; [reflexivity | destruct (truthy v); reflexivity]. Qed.
+Print Assumptions C03_constant_operand.
